@@ -1,0 +1,176 @@
+//! Verification hooks (feature `verif-hooks`, off by default).
+//!
+//! Read-only snapshots of private state, a way to force the micro-sequencer
+//! into an arbitrary control state, and a thread-local clock edge log with a
+//! fuel counter. None of this is compiled without the feature.
+use std::cell::{Cell, RefCell};
+
+use super::{FlagWrite, Interrupt, MemoryWait, RawMachine, State};
+use crate::machine::{AluInput, AluOutput, AluSelect};
+
+/// Plain copy of the private parts of a [`RawMachine`].
+#[derive(Debug, Clone, PartialEq, Eq)]
+pub struct VerifSnapshot {
+    pub micro_address: usize,
+    pub instruction_register: u8,
+    pub pending_register_write: Option<u8>,
+    pub pending_flag_write: bool,
+    pub pending_edge_interrupt: bool,
+    pub pending_level_interrupt: bool,
+    pub pending_wait_for_memory: bool,
+    pub alu_output: u8,
+    pub alu_carry_out: bool,
+    pub alu_zero_out: bool,
+    pub alu_negative_out: bool,
+    pub last_bus_read: u8,
+}
+
+/// What happened to one call of [`RawMachine::trigger_clock_edge`].
+#[derive(Debug, Clone, Copy, PartialEq, Eq)]
+pub enum EdgeKind {
+    /// Machine was not running, the edge was ignored.
+    Ignored,
+    /// The edge was consumed by a pending memory wait.
+    WaitSkipped,
+    /// One microprogram word was executed.
+    Executed,
+}
+
+/// One entry of the clock edge log.
+#[derive(Debug, Clone, PartialEq, Eq)]
+pub struct EdgeEvent {
+    pub kind: EdgeKind,
+    pub micro_address_after: usize,
+    pub instruction_register_after: u8,
+    pub done_after: bool,
+    pub state_after: State,
+    pub wait_after: bool,
+    /// Address of the bus read executed by this edge, if any.
+    pub bus_read: Option<u8>,
+    /// Address and value of the bus write executed by this edge, if any.
+    pub bus_write: Option<(u8, u8)>,
+}
+
+thread_local! {
+    static EDGE_LOG: RefCell<Option<Vec<EdgeEvent>>> = RefCell::new(None);
+    static FUEL: Cell<Option<u64>> = Cell::new(None);
+}
+
+/// Payload of the panic raised when the armed fuel is exhausted.
+pub const FUEL_EXHAUSTED: &str = "verif-hooks: clock edge fuel exhausted";
+
+/// Start recording clock edges on this thread (clears an existing log).
+pub fn arm_edge_log() {
+    EDGE_LOG.with(|log| *log.borrow_mut() = Some(Vec::new()));
+}
+
+/// Stop recording and return what was recorded.
+pub fn take_edge_log() -> Vec<EdgeEvent> {
+    EDGE_LOG.with(|log| log.borrow_mut().take().unwrap_or_default())
+}
+
+/// Allow at most `edges` further clock edges on this thread. `None` disarms.
+pub fn set_fuel(edges: Option<u64>) {
+    FUEL.with(|fuel| fuel.set(edges));
+}
+
+/// Remaining fuel, if armed.
+pub fn fuel() -> Option<u64> {
+    FUEL.with(|fuel| fuel.get())
+}
+
+pub(super) fn on_edge_enter() {
+    FUEL.with(|fuel| {
+        if let Some(left) = fuel.get() {
+            if left == 0 {
+                fuel.set(None);
+                panic!("{}", FUEL_EXHAUSTED);
+            }
+            fuel.set(Some(left - 1));
+        }
+    });
+}
+
+pub(super) fn on_edge_exit(machine: &RawMachine, kind: EdgeKind) {
+    EDGE_LOG.with(|log| {
+        if let Some(log) = log.borrow_mut().as_mut() {
+            let executed = kind == EdgeKind::Executed;
+            let signals = machine.signals();
+            let addr = *machine.register.get(signals.selected_register_a());
+            let bus_read = if executed && signals.busen() {
+                Some(addr)
+            } else {
+                None
+            };
+            let bus_write = if executed && signals.buswr() {
+                Some((addr, machine.alu_output.output()))
+            } else {
+                None
+            };
+            log.push(EdgeEvent {
+                kind,
+                micro_address_after: machine.microprogram_ram.get_address(),
+                instruction_register_after: machine.instruction_register.get_raw(),
+                done_after: machine.is_instruction_done(),
+                state_after: machine.state,
+                wait_after: machine.pending_wait_for_memory.is_some(),
+                bus_read,
+                bus_write,
+            });
+        }
+    });
+}
+
+impl RawMachine {
+    /// Copy the private sequencer/pipeline state.
+    pub fn verif_snapshot(&self) -> VerifSnapshot {
+        VerifSnapshot {
+            micro_address: self.microprogram_ram.get_address(),
+            instruction_register: self.instruction_register.get_raw(),
+            pending_register_write: self.pending_register_write.map(|r| r as u8),
+            pending_flag_write: self.pending_flag_write.is_some(),
+            pending_edge_interrupt: self.pending_edge_interrupt.is_some(),
+            pending_level_interrupt: self.pending_level_interrupt.is_some(),
+            pending_wait_for_memory: self.pending_wait_for_memory.is_some(),
+            alu_output: self.alu_output.output(),
+            alu_carry_out: self.alu_output.carry_out(),
+            alu_zero_out: self.alu_output.zero_out(),
+            alu_negative_out: self.alu_output.negative_out(),
+            last_bus_read: self.last_bus_read,
+        }
+    }
+
+    /// Put the micro-sequencer into the given control state.
+    ///
+    /// The ALU latch is set to `alu_output` with the given carry (zero and
+    /// negative follow from the value). Pending writes and the memory wait
+    /// are cleared, the machine is set to [`State::Running`].
+    pub fn verif_force_control(
+        &mut self,
+        micro_address: usize,
+        instruction_register: u8,
+        alu_output: u8,
+        alu_carry_out: bool,
+        pending_edge_interrupt: bool,
+        last_bus_read: u8,
+    ) {
+        self.microprogram_ram.set_address(micro_address);
+        self.instruction_register.set_raw(instruction_register);
+        let select = if alu_carry_out {
+            AluSelect::SETC
+        } else {
+            AluSelect::B
+        };
+        self.alu_output = AluOutput::from_input(&AluInput::new(0, alu_output, false), &select);
+        self.pending_edge_interrupt = if pending_edge_interrupt {
+            Some(Interrupt)
+        } else {
+            None
+        };
+        self.pending_register_write = None;
+        self.pending_flag_write = None::<FlagWrite>;
+        self.pending_wait_for_memory = None::<MemoryWait>;
+        self.last_bus_read = last_bus_read;
+        self.state = State::Running;
+    }
+}
